@@ -793,7 +793,12 @@ func (e *Engine) selectArr(a SymArrVal, idx *Term) Value {
 	r := e.name(t)
 	r = &Term{S: r.S, Sort: SInt, Lo: ii.lo, Hi: ii.hi}
 	if a.NeedRange {
-		e.sol.Assert(And(Le(KInt(ii.lo), &Term{S: r.S, Sort: SInt}), Le(&Term{S: r.S, Sort: SInt}, KInt(ii.hi))))
+		lo, hi := ii.lo, ii.hi
+		if a.RLo != nil {
+			lo, hi = a.RLo, a.RHi
+			r.Lo, r.Hi = lo, hi
+		}
+		e.sol.Assert(And(Le(KInt(lo), &Term{S: r.S, Sort: SInt}), Le(&Term{S: r.S, Sort: SInt}, KInt(hi))))
 	}
 	return r
 }
@@ -1270,7 +1275,7 @@ func (e *Engine) equal(st *State, a, b Value, t types.Type) *Term {
 		case *Term:
 			return e.strBytesEq(st, x, y)
 		case StrBytes:
-			if x.Obj == y.Obj {
+			if x.Obj == y.Obj || e.sameArray(st, x.Obj, y.Obj) {
 				// same backing array: equal offsets and lengths imply equality (sufficient, not necessary)
 				return And(Eq(x.Len, y.Len), Or(Eq(x.Len, KInt64(0)), Eq(x.Off, y.Off)))
 			}
@@ -1343,6 +1348,22 @@ func (e *Engine) equal(st *State, a, b Value, t types.Type) *Term {
 	return nil
 }
 
+// do two objects hold the very same array value?
+func (e *Engine) sameArray(st *State, a, b int) bool {
+	if a == 0 || b == 0 {
+		return false
+	}
+	x, ok1 := st.heap[a].V.(SymArrVal)
+	y, ok2 := st.heap[b].V.(SymArrVal)
+	if !ok1 || !ok2 {
+		return false
+	}
+	if x.C != nil || y.C != nil {
+		return x.C != nil && y.C != nil && len(x.C) == len(y.C) && len(x.C) > 0 && &x.C[0] == &y.C[0]
+	}
+	return x.A.S == y.A.S
+}
+
 func ptrEq(x, y PtrVal) *Term {
 	if x.Obj != y.Obj || len(x.Path) != len(y.Path) {
 		return tFalse
@@ -1374,9 +1395,18 @@ func (e *Engine) strBytesEq(st *State, x StrBytes, y *Term) *Term {
 		if !ok {
 			unsup("string over non-byte array")
 		}
-		cs := []*Term{Eq(x.Len, KInt64(int64(len(y.Str))))}
+		lenEq := Eq(x.Len, KInt64(int64(len(y.Str))))
+		if lenEq.K && !lenEq.B {
+			return tFalse
+		}
+		cs := []*Term{lenEq}
 		for i := 0; i < len(y.Str); i++ {
-			cs = append(cs, Eq(e.selectArr(arr, Add(x.Off, KInt64(int64(i)))).(*Term), KInt64(int64(y.Str[i]))))
+			idx := Add(x.Off, KInt64(int64(i)))
+			if arr.C != nil && idx.K && idx.I.Int64() >= int64(len(arr.C)) {
+				// beyond the array: the length equation above is already false on this path
+				return tFalse
+			}
+			cs = append(cs, Eq(e.selectArr(arr, idx).(*Term), KInt64(int64(y.Str[i]))))
 		}
 		return And(cs...)
 	}
